@@ -67,6 +67,10 @@ impl<'a, F: Read + Write + Seek> MiniChain<'a, F> {
                     } else {
                         self.minialloc.begin_mini_chain()?
                     };
+                // Mini sectors are reused without being reinitialized.
+                self.minialloc
+                    .seek_within_mini_sector(new_sector_id, 0)?
+                    .write_all(&[0u8; consts::MINI_SECTOR_LEN])?;
                 self.sector_ids.push(new_sector_id);
             }
         }
